@@ -86,6 +86,52 @@ def first(xs):
     return xs[0]
 
 
+def helper_norm(n, bias):
+    if bias == 1:
+        return n
+    if bias == 0:
+        return n - 1
+    raise ValueError("bias")
+
+
+def helper_twice(x):
+    return x + x
+
+
+def f_inline(xs, k):
+    n = len(xs)
+    v = helper_norm(n, k)
+    return v * 10 + helper_twice(k)
+
+
+def f_unroll(xs, k):
+    count = 0
+    total = 0
+    if k > 2:
+        blocks = ((1, k), (2, k + 1), (3, 7))
+    else:
+        blocks = ((k, 1), (0, 0), (5, 5))
+    for a, b in blocks:
+        count += 1
+        total = total + a * b * count
+    for z in (k, count, total):
+        total += z
+    return total + len(xs)
+
+
+def f_merge(xs, k):
+    best = 0
+    other = 1
+    if k > 2:
+        best = k
+        tmp = 5
+    else:
+        other = k + 3
+    if len(xs) > 1:
+        best = best + 1
+    return best * 100 + other + len([y for y in (k, best, other) if y > 2])
+
+
 def run_py(fn, *a):
     try:
         return fn(*a)
@@ -120,6 +166,9 @@ def main():
     defs.append(("f_next", "(xs : List Int) : Option Int", f_next, {"xs": "xs"},
                  R(expr=common + [("list($x)", "{x}"), ("$l[1:]", "(List.tail {l})")],
                    stmt=[("$t = first($l)", ("t",), "(List.head? {l})", "bind")], ret="some ({e})", raise_="none")))
+    for nm, fn in (("f_inline", f_inline), ("f_unroll", f_unroll), ("f_merge", f_merge)):
+        defs.append((nm, "(xs : List Int) (k : Int) : Option Int", fn, {"xs": "xs", "k": "k"},
+                     R(expr=common, ret="some ({e})", raise_="none")))
     LISTS = [[], [1], [2, 4], [3, 1, 4, 1, 5], [6, 2, 9, 0, 7], [-1, 3], [5, 5, 2]]
     KS = [0, 2, 3, 4, 5]
     text = ["import MenpoModel.Core.PyLoop", "set_option linter.unusedVariables false"]
